@@ -441,6 +441,18 @@ func (g *gen) genFunc(kind string) {
 	if kind == "safe" || kind == "method" {
 		maxSt = 3
 	}
+	if kind != "safe" && g.chance(70) {
+		for _, rt := range sig.results {
+			if rt == "int" || rt == "bool" {
+				f.trace = "tr"
+			}
+		}
+		if f.trace != "" {
+			body = append(body, &Node{K: "define", S: "tr", A: []*Node{ilit(0)}})
+			g.add(&vinfo{name: "tr", typ: "int", ro: true, lo: -wideB, hi: wideB})
+			g.mark("path-trace")
+		}
+	}
 	if f.hasDefer && g.chance(70) {
 		body = append(body, g.stDefer())
 	}
